@@ -24,6 +24,7 @@ CONSTANTS
   Tickets = TRUE
   Changes = {}
   Presents = {}
+  Memory = FALSE
 INIT Init
 NEXT Next
 INVARIANTS AuthHolds VpcHolds ScopeHolds ResumeHolds ResumeScopeHolds Conforms RevocationEffective
